@@ -146,6 +146,7 @@ pub fn property() -> Property {
             name: "peek-vs-decap",
             rule: "see property rule",
             cases: (360_000, 3_000_000),
+            fuzz_decode: None,
             strategy,
             check,
             required_classes: &["frag-id", "label", "reuse-error", "packet-with-extensions", "has-packets"],
